@@ -168,6 +168,9 @@ _r("sigma/correlations.py", "SigmaCorrelationCondition.from_dict", "for", "Sigma
 _r("sigma/correlations.py", "SigmaCorrelationCondition.from_dict", "comp", "unknown_keys",
    "sorted: the generator over the set is the argument of sorted(), the join sees a sorted list (keys are "
    "stringified first so that non-string keys give a Sigma error instead of TypeError)")
+_r("sigma/rule/base.py", "SigmaYAMLLoader.construct_mapping", "draw", "hash(key)",
+   "internal: the value of hash() is discarded, the call only tests hashability of a YAML mapping key "
+   "(TypeError -> YAMLError)")
 _r("sigma/exceptions.py", "SigmaRuleLocation.__str__", "str", "str(self.path.resolve())",
    "not-a-set: pathlib.Path.resolve(), the heuristic knows a set-returning function of the same name")
 _r("sigma/filters.py", "SigmaFilter.apply_on_rule", "draw", "random.choices(string.ascii_lowercase, k=10)",
